@@ -777,10 +777,27 @@ INTEGER_encode_uper(const asn_TYPE_descriptor_t *td,
 		ASN__ENCODED_OK(er);
 	}
 
-	if(ct && ct->lower_bound) {
-		ASN_DEBUG("Adjust lower bound to %ld", ct->lower_bound);
-		/* TODO: adjust lower bound */
-		ASN__ENCODE_FAILED;
+	if(ct && (ct->flags & APC_SEMI_CONSTRAINED)) {
+		/*
+		 * X.691, #11.7, #13.2.3: the offset from the lower bound as
+		 * a non-negative-binary-integer in the minimum number of octets.
+		 */
+		unsigned long offset =
+			(unsigned long)value - (unsigned long)ct->lower_bound;
+		uint8_t obuf[sizeof(offset)];
+		size_t n = sizeof(obuf);
+		do {
+			obuf[--n] = (uint8_t)offset;
+			offset >>= 8;
+		} while(offset && n);
+		ASN_DEBUG("Encoding semi-constrained integer %ld (low %ld)",
+			value, ct->lower_bound);
+		if(uper_put_length(po, sizeof(obuf) - n, 0)
+			!= (ssize_t)(sizeof(obuf) - n))
+			ASN__ENCODE_FAILED;
+		if(per_put_many_bits(po, &obuf[n], 8 * (sizeof(obuf) - n)))
+			ASN__ENCODE_FAILED;
+		ASN__ENCODED_OK(er);
 	}
 
 	for(buf = st->buf, end = st->buf + st->size; buf < end;) {
